@@ -118,6 +118,7 @@ class Inliner:
         self.promoted = []
         self.inlined = []           # (depth, def path) in splice order
         self.skipped = {}           # def path -> reason (callees left as calls)
+        self.shim_mode = None
 
     def may_inline(self, d, depth, stack):
         g = self.facts.fns.get(d)
@@ -143,6 +144,14 @@ class Inliner:
                     ci = self.facts.instances[e["to"]]
                     if ci and ci.get("kind") == "item":
                         return ci["def"], ci
+                    if ci and ci.get("kind") in ("fnptr_shim", "closure_once_shim", "reify_shim"):
+                        # `<fn item as FnOnce>::call_once`, a by-value call of a by-ref closure, ...: a shim around exactly one callee
+                        tos = [e2["to"] for e2 in ci.get("edges", []) if e2["k"] == "call" and e2.get("to") is not None and not e2.get("cleanup")]
+                        if len(tos) == 1:
+                            c2 = self.facts.instances[tos[0]]
+                            if c2 and c2.get("kind") == "item":
+                                self.shim_mode = "spread_ref" if ci["kind"] == "closure_once_shim" else ("spread" if ci["kind"] == "fnptr_shim" else None)
+                                return c2["def"], c2
                     return None, None
             # the instance has no resolved edge here (virtual, fn pointer, intrinsic): leave as a call
             return None, None
@@ -173,13 +182,19 @@ class Inliner:
             t = b["term"]
             if t["t"] != "call" or t.get("target") is None:
                 continue
+            self.shim_mode = None
             cd, ci = self.resolve(inst, i, t)
+            shim_mode = self.shim_mode
             if cd is None:
                 continue
             why = self.may_inline(cd, depth + 1, stack + [d])
             if why:
                 if why != "no MIR":
                     self.skipped[cd] = why
+                if shim_mode is not None:
+                    # `<fn item as FnOnce>::call_once(f, (args,))` of a callee that stays a call: show the real callee
+                    nb = self.blocks[bb0 + i]
+                    nb["term"] = dict(nb["term"], res=cd, callee=cd, name=cd.rsplit("::", 1)[-1], via_shim=True)
                 continue
             cg = self.facts.fns[cd]
             craw = cg.mir
@@ -193,12 +208,25 @@ class Inliner:
             line = nt.get("line", 0)
             def asg(dst, op):
                 pre.append({"s": "assign", "line": line, "exp": bool(nt.get("exp")), "lhs": {"l": dst, "p": []}, "rhs": {"rv": "use", "op": op}, "inl_arg": True})
-            if len(args) == argc:
+            if shim_mode == "spread" and len(args) == 2:
+                # fn item called through FnOnce/FnMut/Fn: (f, (a, b, ..)) -> f(a, b, ..)
+                tup = args[1]
+                for k in range(argc):
+                    if tup.get("k") in ("copy", "move"):
+                        pl = tup["pl"]
+                        asg(clb_next + 1 + k, {"k": tup["k"], "pl": {"l": pl["l"], "p": pl["p"] + [{"f": k, "n": str(k), "ty": "?"}]}})
+                    else:
+                        asg(clb_next + 1 + k, {"k": "other"})
+            elif len(args) == argc and shim_mode is None:
                 for k, a in enumerate(args):
                     asg(clb_next + 1 + k, a)
             elif "{closure#" in cd and len(args) == 2 and argc >= 1:
                 # rust-call ABI: (closure, (a, b, ..)) is spread into the closure body's parameters
-                asg(clb_next + 1, args[0])
+                if shim_mode == "spread_ref" and args[0].get("k") in ("copy", "move"):
+                    # the closure body takes `&mut self` / `&self`, the shim is called with the closure by value
+                    pre.append({"s": "assign", "line": line, "exp": True, "lhs": {"l": clb_next + 1, "p": []}, "rhs": {"rv": "ref", "mut": True, "pl": args[0]["pl"]}, "inl_arg": True})
+                else:
+                    asg(clb_next + 1, args[0])
                 tup = args[1]
                 for k in range(argc - 1):
                     if tup.get("k") in ("copy", "move"):
